@@ -104,4 +104,36 @@ example : (applyAll Data.init demoLog).maxShardGroupID = 1 ∧ (applyAll Data.in
 example : restore (snapshot (applyAll Data.init demoLog)) = applyAll Data.init demoLog :=
   restore_snapshot_id _ (reachable_keysAreNames _)
 
+/-- **snapshot + restore is the identity on every reachable catalogue** (T1 with its hypothesis
+discharged): every modelled field, the per-name version counters `MstVersions` included, comes
+back — whatever else the policy holds or no longer holds. -/
+theorem snapshot_restore_id (log : List Cmd) : restore (snapshot (applyAll Data.init log)) = applyAll Data.init log :=
+  restore_snapshot_id _ (reachable_keysAreNames _)
+
+/-- the window in which the counters are the only trace of a measurement: created, marked
+deleted, purged — the policy is empty again, `MstVersions` still says `m0 ↦ 0`. -/
+def emptiedPolicyLog : List Cmd := [
+  .createDataNode "n1:8400" "n1:8401" "",
+  .createDatabase "db0" none 1,
+  .createDbPtView "db0",
+  .createMeasurement "db0" "autogen" "m0" (some ⟨["t0"], "hash", 0⟩) 0 [⟨"f0", 1, none⟩],
+  .markMeasurementDelete "db0" "autogen" "m0",
+  .dropMeasurement "db0" "autogen" "m0_0000"]
+
+def policyOf (d : Data) (db rp : String) : Option RP := (alFind db d.databases).bind fun x => alFind rp x.rps
+
+example : ((policyOf (applyAll Data.init emptiedPolicyLog) "db0" "autogen").map fun r => (r.msts, r.mstVersions)) = some ([], [⟨"m0", 0⟩]) := by
+  decide +kernel
+
+/-- the counters of an emptied policy survive snapshot + restore … -/
+theorem versions_of_empty_policy_survive :
+    ((policyOf (restore (snapshot (applyAll Data.init emptiedPolicyLog))) "db0" "autogen").map (·.mstVersions)) = some [⟨"m0", 0⟩] := by
+  rw [snapshot_restore_id]; decide +kernel
+
+/-- … so the restored replica hands out `m0_0001`, not the purged incarnation's `m0_0000`. -/
+theorem recreate_after_restore_takes_next_version :
+    ((policyOf (applyAll (restore (snapshot (applyAll Data.init emptiedPolicyLog)))
+        [.createMeasurement "db0" "autogen" "m0" (some ⟨["t0"], "hash", 0⟩) 0 []]) "db0" "autogen").map fun r => r.msts.map (·.name)) = some ["m0_0001"] := by
+  rw [snapshot_restore_id]; decide +kernel
+
 end OG.C15
